@@ -218,6 +218,9 @@ theorem step_refines (s : State) (op : Op) (h : Inv s) :
   | aresize v n x =>
     exact stepA s v (fun t => t.resize n x) (fun xs => Spec.resize xs n x)
       (by intro t ht; exact AState.resize_good t ht n x) h
+  | aresized v n =>
+    exact stepA s v (fun t => t.resize n 0) (fun xs => Spec.resize xs n 0)
+      (by intro t ht; exact AState.resize_good t ht n 0) h
   | aappend v x =>
     exact stepA s v (fun t => t.append x) (fun xs => Spec.insert xs xs.length [x])
       (by intro t ht; exact AState.append_good t ht x) h
